@@ -154,8 +154,65 @@ def expressions(ctx, faulty=0.0, n_random=None):
     return out
 
 
+
+# --------------------------------------------------------------------------- placement probe
+# The value of a list expression must not depend on WHERE the statement that made the list ran: before the line of
+# text or after it (i.e. inside the engine's look-ahead past the line end, committed when a choice follows).
+# Ink defines both programs as the same: the statement runs once, before the choice.
+PLACEMENT_STMTS = ["~ bag -= (apple, cherry)", "~ bag = ()", "~ bag = bag ^ (banana)", "~ bag -= apple",
+                   "~ bag += banana", "~ bag = LIST_INVERT(bag)", "~ bag = LIST_ALL(bag) - bag", "~ bag++", "~ bag--"]
+PLACEMENT_TMPL = """LIST fruits = apple, banana, cherry
+LIST tools = saw, axe
+VAR bag = (apple, cherry)
+{before}
+You open the bag.
+{after}
+* [Look inside]
+    all={{LIST_ALL(bag)}} missing={{LIST_INVERT(bag)}} count={{LIST_COUNT(LIST_INVERT(bag))}} min={{LIST_MIN(bag)}} max={{LIST_MAX(bag)}} now={{bag}}
+    ~ bag = LIST_INVERT(bag) - banana
+    then={{bag}} n={{LIST_COUNT(bag)}} v={{LIST_VALUE(bag)}}
+    -> END
+"""
+
+
+def placement_probe(ctx):
+    for k, stmt in enumerate(PLACEMENT_STMTS):
+        outs = {}
+        for place in ("before", "after"):
+            src = PLACEMENT_TMPL.format(before=stmt if place == "before" else "", after=stmt if place == "after" else "")
+            ink = os.path.join(ctx.scratch, f"place-{k}-{place}.ink")
+            out = os.path.join(ctx.scratch, f"place-{k}-{place}.json")
+            open(ink, "w").write(src)
+            st, detail = common.compile_ink(ctx, ink, out)
+            if st != "ok":
+                ctx.count("placement_not_compiled")
+                outs = None
+                break
+            ops = [["new", out], ["seed", 7], ["cont"], ["choices"], ["choose", 0], ["maximally"], ["getvar", "bag"],
+                   ["warnings"], ["errors"]]
+            rb = play.run_rt_script(ops, ctx.scratch, tag=f"pl{k}{place}")
+            rm = play.run_model(ops, ctx.scratch, tag=f"plm{k}{place}")
+            d = play.first_diff(ops, rb, rm)
+            if d:
+                i, a, b = d
+                ctx.corr_diff("placement probe: interpreter model vs real code",
+                              {"source": src, "op": ops[i], "code": a, "model": b})
+            outs[place] = ([play.canon_result(o, r) for o, r in zip(ops, rb)][4:], src)
+        if not outs:
+            continue
+        ctx.case("placement:" + stmt, True)
+        ctx.count("placement_pairs")
+        if outs["before"][0] != outs["after"][0]:
+            ctx.violation("oracle", {"why": "the value of list expressions depends on whether the assignment ran before "
+                                            "the text line or after it (inside the look-ahead past the line end)",
+                                     "statement": stmt, "source_before": outs["before"][1],
+                                     "source_after": outs["after"][1], "choices": [0],
+                                     "shown_before": outs["before"][0], "shown_after": outs["after"][0]},
+                          signature={"kind": "placement", "stmt": stmt})
+
 def run(ctx):
     quick = ctx.tier == "quick"
+    placement_probe(ctx)
     exprs = expressions(ctx)
     ex = list(exprgen.exhaustive_depth1())
     well = []
@@ -215,6 +272,15 @@ def run(ctx):
 def replay(ctx, path):
     body = json.load(open(path))
     rp = body["replay"]
+    if "source_after" in rp:
+        for k in ("source_before", "source_after"):
+            ink = os.path.join(ctx.scratch, k + ".ink"); out = os.path.join(ctx.scratch, k + ".json")
+            open(ink, "w").write(rp[k])
+            print(k, common.compile_ink(ctx, ink, out))
+            ops = [["new", out], ["seed", 7], ["cont"], ["choices"], ["choose", 0], ["maximally"], ["getvar", "bag"]]
+            for o, r in zip(ops, play.run_rt_script(ops, ctx.scratch, tag="replay")):
+                print(json.dumps(o), "->", json.dumps(r)[:300])
+        return 0
     e = rp["tree"]
     res = eval_batch(([e], 1, 0.0, ctx.scratch, "replay"))
     print(json.dumps(res, indent=1)[:3000])
